@@ -37,6 +37,7 @@ class HSpec:
     spec: Spec
     methods: Dict[str, List[Meth]] = field(default_factory=dict)  # class name -> own methods
     wmt_false: List[str] = field(default_factory=list)  # classes carrying an explicit with_model_type=False
+    wmt_bare: List[str] = field(default_factory=list)  # classes carrying a bare ``@serialization()`` (sets nothing)
     shape: str = "asis"
     cp_shape: str = "asis"
 
@@ -200,10 +201,17 @@ def hspecs(draw: Any, ho: HOpts = HOpts()) -> HSpec:
             _add_base(spec, spec.classes[d], spec.classes[b1].name)
             _add_base(spec, spec.classes[d], spec.classes[b2].name)
 
-    # the leaves of every hierarchy must be concrete
+    # abstract classes without a concrete descendant are legal as long as no property needs an instance of
+    # them; half of them are kept (e.g. a concrete class whose only descendants are abstract)
+    used = _types_used(spec)
     for c in spec.classes:
         if c.abstract and not spec.concrete_descendants(c.name):
-            c.abstract = False
+            if c.name in used or any(a in used for a in spec.ancestors(c.name)) or draw(st.booleans()):
+                c.abstract = False
+    for c in spec.classes:
+        if (not c.abstract and c.bases and not spec.descendants(c.name) and c.name not in used
+                and not any(a in used for a in spec.ancestors(c.name)) and draw(st.floats(0, 1)) < 0.2):
+            c.abstract = True  # an abstract leaf below (possibly concrete) parents
     mmgen._make_instantiable(spec)
 
     # ---- with_model_type: wherever dispatch is needed, plus the drawn extra settings ----
@@ -218,6 +226,10 @@ def hspecs(draw: Any, ho: HOpts = HOpts()) -> HSpec:
             # every class below ``c`` may have further parents: they must not carry True either
             if not any(effective_wmt(h, x) for x in group):
                 h.wmt_false.append(c.name)
+    # a bare ``@serialization()`` sets nothing: the class keeps inheriting the setting of its ancestors
+    for c in spec.classes:
+        if not c.with_model_type and c.name not in h.wmt_false and draw(st.floats(0, 1)) < 0.15:
+            h.wmt_bare.append(c.name)
 
     # ---- constrained primitives ----
     cp_shape = draw(st.sampled_from(["asis", "dag", "one-prim", "one-prim"]))
@@ -297,6 +309,11 @@ def render_class(h: HSpec, cls: Cls) -> List[str]:
             if ln.startswith(f"class {cls.name}(") or ln.startswith(f"class {cls.name}:"):
                 lines.insert(i, "@serialization(with_model_type=False)")
                 break
+    if cls.name in h.wmt_bare and not cls.with_model_type and cls.name not in h.wmt_false:
+        for i, ln in enumerate(lines):
+            if ln.startswith(f"class {cls.name}(") or ln.startswith(f"class {cls.name}:"):
+                lines.insert(i, "@serialization()")
+                break
     ms = h.methods.get(cls.name, [])
     if ms:
         for m in ms:
@@ -340,6 +357,7 @@ def to_json(h: HSpec) -> Any:
         "spec": h.spec.to_json(),
         "methods": {k: [dataclasses.asdict(m) for m in v] for k, v in h.methods.items()},
         "wmt_false": list(h.wmt_false),
+        "wmt_bare": list(h.wmt_bare),
         "shape": h.shape,
         "cp_shape": h.cp_shape,
     }
@@ -383,6 +401,7 @@ def from_json(d: Any) -> HSpec:
         h.methods[str(k)] = [Meth(str(m["name"]), str(m["kind"]), [(str(a), str(t)) for a, t in m.get("args", [])],
                                   m.get("returns"), str(m.get("body", "pass"))) for m in v]
     h.wmt_false = [str(x) for x in d.get("wmt_false", [])]
+    h.wmt_bare = [str(x) for x in d.get("wmt_bare", [])]
     h.shape = str(d.get("shape", "?"))
     h.cp_shape = str(d.get("cp_shape", "?"))
     return h
